@@ -20,7 +20,17 @@ BASELINE_MISSED = {"C02-2": "C02 now sets stream trailers that share keys with t
  "C07r2-2": "zero-length envelopes under undefined flag bits",
  "C09r2-1": "handler-side requests announce Content-Length as fixed-size clients do",
  "C15r2-2": "instant class between-burst: context ends after part of an already-delivered burst was taken",
- "C17r2-2": "a second file with same-named services in another package in the same plugin invocation"}
+ "C17r2-2": "a second file with same-named services in another package in the same plugin invocation",
+ "C04r3-1": "new trailer mode: HTTP trailers claiming Grpc-Status 0 on the protocols whose terminator lives in the body (gRPC-Web, Connect)",
+ "C06r3-2": "gRPC statuses next to non-200 HTTP statuses are generated; a zero Grpc-Status is no longer treated as a protocol-level error; universal clause 'a non-200 response never succeeds'",
+ "C10r3-1": "deadline source dimension: the caller's context, a default-timeout client interceptor, or an interceptor shortening the caller's deadline (encode and end-to-end sub-checks)",
+ "C11r3-2": "handlers of client/bidi streams optionally set their response headers only after receiving (still before the first Send)",
+ "C13r3-1": "some failing calls return one shared sentinel *connect.Error with metadata; per-call trailers on failing streams; error metadata must not carry other calls' trailers and the sentinel must stay intact",
+ "C14r3-1": "new program family 'oversize': a response message above the client's read limit followed by further messages and further Receives (sticky Receive errors)",
+ "C16r3-1": "WithInterceptors groups optionally are sub-slices list[a:b] of one backing array with spare capacity (enumeration and random trees)",
+ "C17r3-2": "keyword-like names in every casing (GO, IF, tYpE) and leading initialisms (HTTPGet next to HttpGet); the checker now finds a method's client field from the method body instead of by case-insensitive name (it had confused GOTO with Goto)",
+ "C18r3-1": "binary-header values of every length: enumerated sweep 0..4096 (thorough 0..70000) and random lengths up to 64 KiB (the generator had stopped at 64 bytes); C11 -Bin values up to 1.5 KB",
+ "C19r3-3": "panic point 'after the handler's context has ended' (propagated client deadline in virtual time)"}
 rows = []
 for d in sorted(glob.glob(os.path.join(ROOT, "seeded", "C*-*"))):
     name = os.path.basename(d)
@@ -33,6 +43,8 @@ for d in sorted(glob.glob(os.path.join(ROOT, "seeded", "C*-*"))):
     note = "missed at first; " + BASELINE_MISSED[name] if name in BASELINE_MISSED else "detected as first evaluated"
     if "r2-" in name:
         note = "round 2: " + note
+    if "r3-" in name:
+        note = "round 3: " + note
     rows.append("| %s | %s | %s | %s | %s | %s |" % (name, summ, needs, "yes" if valid else "NO", ", ".join(det) or "**not detected**", note))
 table = "| seeded | change | needs | confirmed (applies, suite passes, demo fails/passes) | detected by `./verif check <prop>` | history |\n|---|---|---|---|---|---|\n" + "\n".join(rows)
 p = os.path.join(ROOT, "DESIGN.md")
